@@ -9,6 +9,20 @@ AX_R = ('axioms: the three real-number axioms of the Coq standard library (Class
         'sig_forall_dec, FunctionalExtensionality.functional_extensionality_dep) where Reals are used; ')
 
 CHECKS = {
+    'C19': dict(
+        technique='Coq proof about hand-written executable models: projection over abstract arithmetic (theorems at R, bit-exact PrimFloat execution against spherical_projection.py) and an integer-coded result container (list induction; vm_compute correspondence against MTData / unique_columns)',
+        text='Theorems in coq/Props/C19.v: every unit vector that is shown keeps its azimuth and lands at radius 2 sin(t/2) (equal area) or '
+             'tan(t/2) (equal angle) for all angles t in [0, pi) and all option combinations; a hidden-hemisphere vector gives nan or, '
+             'with back projection, exactly the projection of its antipode; the upper-hemisphere option is the mirror image; indexing '
+             'the container by index lists or masks selects the same samples in tensors, probabilities and converted parameters; '
+             'maximum-probability selection returns exactly the samples attaining the maximum, in order, never empty; the unique-sample '
+             'reduction lists each distinct tensor once with counts adding up to the chain length. All for every container size and '
+             'content, which the fixed small data sets of the unit tests cannot show.',
+        note='closed under the global context for the container theorems; ' + AX_R + 'for the projection theorems. The models are hand-written: '
+             'tied to the code only by the correspondence runs (bit-exact floats; integer-coded containers incl. near-ties of one unit in '
+             '2^-30 at the maximum). Mean, covariance and derived parameters (agreement with the stand-alone conversions, C12-C14) are judged '
+             'on the implementation. The projection_axis branch is not modelled.',
+        design='6 C19'),
     'C12': dict(
         technique='Coq proof over R (field/nsatz/ring, conversion check of the inlined definitions against the composition of their parts) about MT33_MT6, MT6_MT33, GD_E, E_GD, Tape_MT33, Tape_MT6, SDR_TNP, FP_SDR translated from moment_tensor_conversion.py on every run',
         text='Theorems in coq/Props/C12.v about the regenerated definitions: six-vector -> 3x3 -> six-vector and 3x3 -> six-vector -> 3x3 '
